@@ -415,15 +415,17 @@ Definition step (st : state) (a : action) : state :=
       end
   | ATagAdd => start_tagging st
   | ATagDel hit =>
-      mkState (indexes st) (used st) (disk st) (queue st) (known st) (processed st) (next_cap st)
-              (next_id st) (next_uid st) (nunm st) (cwork st) (unc st) (cjob st)
-              (ijob st) (mjob st) (invalidate_tj hit (tjob st)) (views st)
+      (* DelTag detaches the tag's converters, which may re-open tags: it ends with startTaggingJobIfNeeded (/repo b99a41a) *)
+      start_tagging
+        (mkState (indexes st) (used st) (disk st) (queue st) (known st) (processed st) (next_cap st)
+                 (next_id st) (next_uid st) (nunm st) (cwork st) (unc st) (cjob st)
+                 (ijob st) (mjob st) (invalidate_tj hit (tjob st)) (views st))
   | ATagUpd hit =>
       start_converter (start_tagging
         (mkState (indexes st) (used st) (disk st) (queue st) (known st) (processed st) (next_cap st)
                  (next_id st) (next_uid st) (nunm st) (cwork st) (unc st) (cjob st)
                  (ijob st) (mjob st) (invalidate_tj hit (tjob st)) (views st)))
-  | AConvSet => start_converter st
+  | AConvSet => start_converter (start_tagging st)
   | AMergeFail =>
       match mjob st with
       | Some (mkMJ off snap AtStart _) =>
@@ -434,7 +436,7 @@ Definition step (st : state) (a : action) : state :=
       | _ => st
       end
   | ABoot => start_merge (start_converter (start_tagging st))
-  | AConvRemove => st
+  | AConvRemove => start_tagging st
   | AConvAdd => st
   | AEnvUnc n =>
       mkState (indexes st) (used st) (disk st) (queue st) (known st) (processed st) (next_cap st)
